@@ -53,9 +53,15 @@ CheckLine(k) ==
             /\ Clause("C19_accepted", t.res = "ok", "", k)
             /\ Clause("C19_notBeforeTime",
                       (t.at >= 1 /\ t.status \in {"running", "idle"} /\ c[1] # "pass") => (c[4] >= t.at * 1000 - 60), "", k)
+ReaskLine(k) ==
+  LET t == Trace[k] IN
+  t.ev = "autoplay2" =>
+    /\ Clause("C19_neverVolunteers", \A i \in 2..Len(t.calls) : t.calls[i][1] \notin {"call", "bet", "raise", "allin"}, "", k)
+    /\ Clause("C19_reaskActs", Len(t.calls) = 2, "", k)
+    /\ Len(t.calls) >= 2 => Clause("C19_notBeforeTime", t.calls[2][4] >= t.reask + t.at * 1000 - 60, "", k)
 Init == l = 1
 Next == l <= Len(Trace) /\ l' = l + 1
 Spec == Init /\ [][Next]_l
-Verdict == l > Len(Trace) \/ CheckLine(l)
+Verdict == l > Len(Trace) \/ (CheckLine(l) /\ ReaskLine(l))
 Done == TLCGet("stats").diameter = Len(Trace) + 1 \/ PrintT(<<"INCOMPLETE", TLCGet("stats").diameter, Len(Trace)>>)
 =============================================================================
